@@ -112,18 +112,8 @@ def run(ctx):
     from .common import reachable_bodies
     from .. import cfg as cfgmod
 
-    def loop_helpers(root_key):
-        out = set()
-        for k in reachable_bodies(f, [root_key], stop=lambda n: n in W):
-            hb = f.bodies[k]
-            if k == root_key or hb.kind not in ("Fn", "AssocFn") or not hb.crate.startswith("cozy_chess") or hb.promoted is not None:
-                continue
-            if f.fns.get(k, {}).get("pub") or k in W:
-                continue
-            if cfgmod.natural_loops(hb):
-                out.add(k)
-        return out
-    play_helpers = loop_helpers(body.key)
+    from .common import read_as_part_of
+    play_helpers = read_as_part_of(f, body.key, stop=lambda n: n in W)
     se = sym.SymExec(f, body, inline=lambda n: False if n in W else (True if n in play_helpers else None), max_paths=100000)
     paths = se.run()
     ctx.saw("%s: %d paths" % (body.key, len(paths)))
@@ -259,6 +249,14 @@ def run(ctx):
                 ctx.fail("play:promotion-undecided", "a pawn move path does not decide whether it promotes", where)
                 continue
         ok = setalg.equivalent(pre_c, want)
+        if not ok and want != ("bbconst", 0):
+            # `if attacks.has(to) { checkers |= bb(to) }`: on a path that decided the membership, attacks & bb(to) is
+            # bb(to) or nothing
+            T_ = knight_term[1] if want == knight_term else pawn_term[1]
+            for c in p.conds:
+                e_ = L.lift(c[0])
+                if e_[0] == "has" and e_[2] == mvto and isinstance(c[1], int) and setalg.equivalent(e_[1], T_):
+                    ok = setalg.equivalent(pre_c, ("bbof", mvto) if c[1] else ("bbconst", 0))
         seen_cases.add(case)
         n += 1
         ctx.check(ok, "play:direct-checks:%s" % case,
@@ -271,7 +269,8 @@ def run(ctx):
     # ------------------------------------------------------------ null_move
     ctx.rule("null_move")
     nb = f.need(B + "::null_move")
-    nps = sym.SymExec(f, nb).run()
+    null_helpers = read_as_part_of(f, nb.key, stop=lambda n: n in W)
+    nps = sym.SymExec(f, nb, inline=lambda n: True if n in null_helpers else None).run()
     nsc = scan.find_scans(f, L, nb, nps)
     if ctx.check(len(nsc) == 1, "null:one-scan", "null_move does not contain exactly one slider scan", loc(nb)):
         sc = nsc[0]
